@@ -6,7 +6,7 @@
      entry m i j: element (i,j) of the flat row-major dense matrix returned by convert *)
 From Coq Require Import List Arith Bool ZArith QArith Qcanon.
 Local Open Scope nat_scope.
-From OV Require Import Base.Panic Base.Arith Model.Vector Model.Matrix Model.Tridiag Inst.QcInst Proofs.Tridiag.
+From OV Require Import Base.Panic Base.Arith Model.Vector Model.Matrix Model.Tridiag Inst.QcInst Proofs.Tridiag Proofs.TridiagSolve.
 Import ListNotations.
 
 (* ---- views: index, convert, transpose (every n >= 1, every entry value, any arithmetic) ---- *)
@@ -120,3 +120,46 @@ Check tridiag_mul_rejects : forall (A : Arith) (t : tridiag A) (v : list A),
 Print Assumptions tridiag_mul_rejects.
 Example tridiag_mul_rejects_nonvacuous : length ([q 1 1] : list AQ) <> tn ex3.
 Proof. cbn. discriminate. Qed.
+
+(* ---- Thomas solve over an exact field: the exact solution, or a refusal at the first zero pivot ----
+   Differences from DESIGN Appendix E, all strengthenings or notation: the solution is stated row by row
+   (sum over the dense twin), the Ok branch also says that every pivot is non-zero, and [thomas_pivot]
+   is computed with the arithmetic's own division, so [thomas_pivot t k = Ok zero] means: pivots 0..k-1
+   are non-zero (no DivZero) and pivot k vanishes -- k is the step at which the code refuses. *)
+Theorem thomas_exact_or_refuses : forall (A : Arith), FieldLaws A -> forall (t : tridiag A) (r : list A),
+  wfT t -> 1 <= tn t -> length r = tn t ->
+  (exists u, tsolve t r = Ok u /\ length u = tn t /\
+     (forall i, i < tn t -> sum_n (tn t) (fun j => (dense t i j * nth j u zero)%A) = nth i r zero) /\
+     (forall k, k < tn t -> exists p, thomas_pivot t k = Ok p /\ p <> zero)) \/
+  (tsolve t r = Panic Guard /\ exists k, k < tn t /\ thomas_pivot t k = Ok zero).
+Proof. intros A FL t r. exact (thomas_lemma FL t r). Qed.
+Check thomas_exact_or_refuses : forall (A : Arith), FieldLaws A -> forall (t : tridiag A) (r : list A),
+  wfT t -> 1 <= tn t -> length r = tn t ->
+  (exists u, tsolve t r = Ok u /\ length u = tn t /\
+     (forall i, i < tn t -> sum_n (tn t) (fun j => (dense t i j * nth j u zero)%A) = nth i r zero) /\
+     (forall k, k < tn t -> exists p, thomas_pivot t k = Ok p /\ p <> zero)) \/
+  (tsolve t r = Panic Guard /\ exists k, k < tn t /\ thomas_pivot t k = Ok zero).
+Print Assumptions thomas_exact_or_refuses.
+(* both branches are inhabited over Qc: ex3 is solved; [[1,1],[1,1]] is refused at step 1 *)
+Example thomas_nonvacuous :
+  wfT ex3 /\ 1 <= tn ex3 /\ length ([q 1 1; q 2 1; q 3 1] : list AQ) = tn ex3 /\
+  is_ok (tsolve ex3 ([q 1 1; q 2 1; q 3 1] : list AQ)) = true /\
+  tsolve (@mkT AQ [q 1 1] [q 1 1; q 1 1] [q 1 1] 2) ([q 1 1; q 2 1] : list AQ) = Panic Guard /\
+  is_ok (tsolve (@mkT AQ [q 1 1] [q 0 1; q 1 1] [q 1 1] 2) ([q 1 1; q 2 1] : list AQ)) = false.
+Proof. unfold wfT; cbn [tn tmain tsub tsup ex3 length]. repeat split; auto; vm_compute; reflexivity. Qed.
+
+(* the instance the exact tier of the correspondence check runs: Qc *)
+Theorem thomas_exact_or_refuses_Qc : forall (t : tridiag AQ) (r : list AQ),
+  wfT t -> 1 <= tn t -> length r = tn t ->
+  (exists u, tsolve t r = Ok u /\ length u = tn t /\
+     (forall i, i < tn t -> sum_n (tn t) (fun j => (dense t i j * nth j u zero)%A) = nth i r zero) /\
+     (forall k, k < tn t -> exists p, thomas_pivot t k = Ok p /\ p <> zero)) \/
+  (tsolve t r = Panic Guard /\ exists k, k < tn t /\ thomas_pivot t k = Ok zero).
+Proof. exact (thomas_lemma AQ_FieldLaws). Qed.
+Check thomas_exact_or_refuses_Qc : forall (t : tridiag AQ) (r : list AQ),
+  wfT t -> 1 <= tn t -> length r = tn t ->
+  (exists u, tsolve t r = Ok u /\ length u = tn t /\
+     (forall i, i < tn t -> sum_n (tn t) (fun j => (dense t i j * nth j u zero)%A) = nth i r zero) /\
+     (forall k, k < tn t -> exists p, thomas_pivot t k = Ok p /\ p <> zero)) \/
+  (tsolve t r = Panic Guard /\ exists k, k < tn t /\ thomas_pivot t k = Ok zero).
+Print Assumptions thomas_exact_or_refuses_Qc.
